@@ -14,7 +14,11 @@ RULE = (
     "Non-trivial: at least one delivery happened. Spec oracle on the implementation's trace: per peer, the delivered "
     "sequence is a duplicate-free prefix of the arrived sequence; after the final drain every item of a peer that was "
     "inserted and never removed has been delivered. Socket level: 400 (quick) / 6000 (thorough) seeded random schedules of "
-    "real PULL/SUB/DEALER/ROUTER/REP/XPUB sockets over scripted pipes, every recv result predicted by the World model."
+    "real PULL/SUB/DEALER/ROUTER/REP/XPUB sockets over scripted pipes, every recv result predicted by the World model; and "
+    "300 / 5000 `streams` cases judged by the Spec itself: PULL/DEALER/ROUTER fed by 1..3 peers in random chunks "
+    "(messages numbered per peer, empty frames anywhere incl. last, 70 000-byte frames, clean EOF and EOF inside a "
+    "message): per peer, the delivered sequence must equal the complete messages put on the wire; a message cut short "
+    "is never surfaced; at most one error per connection that ended inside a message."
 )
 ASSUMPTIONS = ["keys of simultaneously registered streams are distinct (peer identities are unique)",
                "parallel data races inside parking_lot / std collections are not modelled: one total order of events"]
@@ -28,6 +32,8 @@ def cases(tier, rng):
     out += list(fqgen.windows("window", tier != "quick"))
     out += list(fqgen.exhaustive(2, 4 if tier == "quick" else 5, "exh2-budget", extra=["exhaust"]))
     out += list(fqgen.exhaust_cases(rng, 300 if tier == "quick" else 4000, "budget"))
+    out += list(fqgen.exhaustive(2, 4 if tier == "quick" else 5, "exh2-wakers", extra=["setwaker 1", "setwaker 2"]))
+    out += list(fqgen.waker_cases(rng, 300 if tier == "quick" else 4000, "wakers"))
     out += list(fqgen.random_cases(rng, 1500 if tier == "quick" else 20000, "random"))
     # socket level: the recv filters of the six receiving socket types on top of the queue — seeded random
     # schedules of real sockets over scripted pipes (partial reads, peers attached mid-way, EOF, errors); the
@@ -35,7 +41,104 @@ def cases(tier, rng):
     for i in range(400 if tier == "quick" else 6000):
         out.append(worldgen.random_case(rng, f"sockets#{i}", ["PULL", "SUB", "DEALER", "ROUTER", "REP", "XPUB"],
                                         tags=("socket-level-random",)))
+    # socket level, judged by the Spec itself: unfiltered receivers (PULL, DEALER, ROUTER) fed by 1..3 peers whose
+    # byte streams are revealed in random chunks interleaved with recv polls; every message carries its peer and
+    # sequence number in its first frame, the other frames include empty ones (also as the LAST frame — a frame
+    # that needs no further byte); some peers disconnect, cleanly or in the middle of a message
+    for i in range(300 if tier == "quick" else 5000):
+        out.append(stream_case(rng, f"streams#{i}"))
     return out
+
+
+STREAM_PEER = {"PULL": "PUSH", "DEALER": "ROUTER", "ROUTER": "DEALER"}
+TAILS = [[], [b""], [b"x"], [b"", b""], [b"a", b""], [b"", b"b"], [b"y" * 300], [b"y" * 300, b""], [b"", b"z" * 70000]]
+
+
+def stream_case(rng, name):
+    from vlib import zmtp
+    t = rng.choice(list(STREAM_PEER))
+    sc = worldgen.Script()
+    sc.sock(1, t)
+    np_ = rng.randint(1, 3)
+    streams, want, cutshort = {}, {}, set()
+    for p in range(1, np_ + 1):
+        sc.attach(1, p, STREAM_PEER[t], b"p%d" % p)
+        msgs = [[b"m%d-%d" % (p, i)] + rng.choice(TAILS if tier_big(rng) else TAILS[:-1]) for i in range(rng.randint(1, 5))]
+        data = b"".join(zmtp.message(m) for m in msgs)
+        want[p] = msgs
+        r = rng.random()
+        if r < 0.2 and len(msgs) > 0:
+            # the connection ends inside the last message: that message must never be surfaced
+            last = zmtp.message(msgs[-1])
+            data = data[: len(data) - rng.randint(1, len(last) - 1)]
+            want[p] = msgs[:-1]
+            cutshort.add(p)
+        streams[p] = data
+    pos = {p: 0 for p in streams}
+    ends = {p: (p in cutshort or rng.random() < 0.3) for p in streams}
+    while any(pos[p] < len(streams[p]) for p in streams):
+        p = rng.choice([q for q in streams if pos[q] < len(streams[q])])
+        step = rng.choice([1, 1, 2, 3, 7, 64, 1000, 100000])
+        chunk = streams[p][pos[p]: pos[p] + step]
+        pos[p] += len(chunk)
+        sc.add(f"reveal {p} {worldgen.hx(chunk)}")
+        if pos[p] >= len(streams[p]) and ends[p] and rng.random() < 0.5:
+            sc.add(f"eof {p}")
+            ends[p] = False
+        if rng.random() < 0.6:
+            f = sc.fut()
+            sc.add(f"recv {f} 1", f"poll {f}", f"drop {f}")
+    for p in streams:
+        if ends[p]:
+            sc.add(f"eof {p}")
+    for _ in range(sum(len(v) for v in want.values()) + 2 * np_ + 2):
+        f = sc.fut()
+        sc.add(f"recv {f} 1", f"poll {f}", f"drop {f}")
+    c = sc.case(name, ["socket-level-streams"])
+    c.expect = ("streams", t, {p: [[bytes(f) for f in m] for m in ms] for p, ms in want.items()}, len(cutshort))
+    return c
+
+
+def tier_big(rng):
+    return rng.random() < 0.15
+
+
+def stream_oracle(case, lines):
+    _, t, want, ncut = case.expect
+    got = {p: [] for p in want}
+    nerr = 0
+    for op, l in zip(case.ops, lines[1:]):
+        if not op.startswith("poll"):
+            continue
+        if l.startswith("ready err"):
+            nerr += 1
+            continue
+        if not l.startswith("ready ok M["):
+            continue
+        frames = l[len("ready ok M["):-1].split(",")
+        if t == "ROUTER":
+            ident, frames = frames[0], frames[1:]
+        if not frames:
+            return f"recv returned a message without frames: {l}"
+        try:
+            tag = bytes.fromhex(frames[0]).decode()
+            p = int(tag[1:].split("-")[0])
+        except Exception:
+            return f"recv returned a message that no peer sent (first frame {frames[0][:40]}): merged or split?"
+        if t == "ROUTER" and ident != (b"p%d" % p).hex():
+            return f"ROUTER labelled a message of peer {p} with identity {ident}"
+        if p not in got:
+            return f"recv returned a message of unknown peer {p}"
+        got[p].append(frames)
+    for p, ms in want.items():
+        exp = [[worldgen.show_frames([f]) for f in m] for m in ms]
+        if got[p] != exp:
+            k = next((i for i, (a, b) in enumerate(zip(got[p], exp)) if a != b), min(len(got[p]), len(exp)))
+            return (f"peer {p}: {len(exp)} complete messages were put on the wire, recv delivered {len(got[p])}; first "
+                    f"difference at message {k}: delivered {got[p][k] if k < len(got[p]) else None} / sent {exp[k] if k < len(exp) else None}")
+    if nerr > ncut:
+        return f"{nerr} recv errors for {ncut} connections that ended inside a message"
+    return None
 
 
 def oracle(case, lines):
@@ -44,6 +147,8 @@ def oracle(case, lines):
     if any(l.startswith("LIVELOCK") for l in lines):
         return "poll_next never returned (budget exhausted: the receiver re-polled self-waking streams for ever) — nothing is delivered any more"
     if case.engine != "fq":
+        if case.expect and case.expect[0] == "streams":
+            return stream_oracle(case, lines)
         return None  # socket-level random schedules: exact prediction by the World model is the check
     a = fqgen.analyse(case, lines)
     for k, d in a["delivered"].items():
